@@ -3,6 +3,7 @@ import EaselModel.Dsqdata.Codec
 import EaselModel.Dsqdata.Loader
 import EaselModel.Dsqdata.Meta
 import EaselModel.Dsqdata.Format
+import EaselModel.Dsqdata.ShortRead
 import EaselModel.Dsqdata.Smem
 import EaselModel.Dsqdata.PackMem
 import EaselModel.WorkQueue.Model
@@ -472,6 +473,35 @@ def dsqopenOp (ws : List String) : String :=
     | .einval => "write-einval"
   | _, none => "bad-op"
 
+/-- `dsqcut`: write, cut one of the three data files short at byte `at`, `esl_dsqdata_Open`, read to the end in a child process.
+    The outcome does not depend on the random tag (stub and data files carry the same one), so tag 0 is used. -/
+def dsqcutOp (ws : List String) : String :=
+  match recsOf ws with
+  | none => "bad-op"
+  | some db =>
+    match writeDb 0 (abcType ((arg? ws "abc").getD "dna")) [] "FASTA".toUTF8.toList db with
+    | .eunimplemented => "write-eunimplemented"
+    | .einval => "write-einval"
+    | .ok f =>
+      let at_ := (argNat? ws "at").getD 0
+      let f := mutate f s!"{(arg? ws "file").getD "dsqs"}:trunc:{at_}"
+      match openDb none f with
+      | .eformat e => s!"open-eformat msg={openMsg e}"
+      | .eunimplemented => "open-eunimplemented"
+      | .fatal => "fault"
+      | .ok o =>
+        let (maxseq, maxpacket) := limits ws
+        let r := readDbX maxseq maxpacket o
+        let cstr := if r.1.isEmpty then "-" else ",".intercalate (r.1.map fun c => s!"{c.1.i0}:{c.1.n}:{c.1.pn}")
+        if r.1.any (fun c => c.2.isNone) then "fault" else
+        match r.2 with
+        | .fault => "fault"
+        | .fatalPackets _ _ => s!"cut-fatal who=loader chunks={cstr}"
+        | .fatalMeta _ _ => s!"cut-fatal who=loader chunks={cstr}"
+        | .eof =>
+          let rs := r.1.flatMap fun c => c.2.getD []
+          s!"cut-ok nseq={rs.length} chunks={cstr} digest={(digestRecs rs).toNat}"
+
 /-- `dsqrt`: predicted chunking and content digest of a database written from the given records and read back -/
 def dsqrt (ws : List String) : String :=
   match arg? ws "abc", argNat? ws "maxseq", argNat? ws "maxpacket", arg? ws "names", arg? ws "descs", arg? ws "dsq" with
@@ -616,6 +646,7 @@ def step' (st : S) (line : String) : S × String :=
   | "dsqrt" :: _ => (st, dsqrt ws)
   | "dsqwrite" :: _ => (st, dsqwriteOp ws)
   | "dsqopen" :: _ => (st, dsqopenOp ws)
+  | "dsqcut" :: _ => (st, dsqcutOp ws)
   | _ => (st, "bad-op")
 
 def main : IO Unit := runDriver ({} : S) step'
